@@ -48,6 +48,9 @@ func runC19(c *Cfg) {
 	case strings.HasPrefix(c.Replay, "base:"):
 		c19BaselineChild(strings.TrimPrefix(c.Replay, "base:"))
 		return
+	case strings.HasPrefix(c.Replay, "repro:"):
+		c19Repro(strings.TrimPrefix(c.Replay, "repro:"))
+		return
 	case strings.HasPrefix(c.Replay, "race:"):
 		c19RaceChild(c, strings.TrimPrefix(c.Replay, "race:"))
 		return
@@ -494,9 +497,21 @@ func c19StartRaceBuild(c *Cfg) *c19RaceBuild {
 
 var c19FrameRe = regexp.MustCompile(`^  (\S+)\(\)$`)
 
-// c19ParseRaces splits the stderr of a -race run into reports and class-tags each by the
-// top cuelang.org/go frames of the two conflicting accesses.
-func c19ParseRaces(stderr string) (classes map[string]string) {
+// c19ParseRaces splits the stderr of a -race run into reports and class-tags each one by
+// its ROOT CAUSE when it is one of the recognised ones, otherwise by the top
+// cuelang.org/go frames of the two conflicting accesses:
+//
+//	race-format-shared-comments  both accesses inside cue/format.Node, on comment nodes
+//	                             (internal/pretty/style sets relative positions in place
+//	                             on comment groups that Value.Syntax results share with
+//	                             the source AST)
+//	race-valueerror-msg          adt.(*ValueError).Msg rewrites its args slice in place
+//	race-lazy-finalize-<cat>     at least one access happens inside the evaluator
+//	                             (adt.(*Vertex).Finalize / unify) entered from a cue.Value
+//	                             method on a vertex reachable from the shared value
+//	                             (cat = evaluated | derived: how the shared value was made)
+//	race:<top1>|<top2>           anything else
+func c19ParseRaces(stderr string, cat string) (classes map[string]string) {
 	classes = map[string]string{}
 	blocks := strings.Split(stderr, "==================")
 	for _, blk := range blocks {
@@ -504,7 +519,7 @@ func c19ParseRaces(stderr string) (classes map[string]string) {
 			continue
 		}
 		// sections are separated by blank lines; the first two are the two accesses
-		var tops []string
+		var tops, secs []string
 		for _, sec := range strings.Split(blk, "\n\n") {
 			if len(tops) == 2 {
 				break
@@ -526,9 +541,36 @@ func c19ParseRaces(stderr string) (classes map[string]string) {
 				}
 			}
 			tops = append(tops, top)
+			secs = append(secs, sec)
 		}
 		sort.Strings(tops)
+		all := func(frag string) bool {
+			for _, s := range secs {
+				if !strings.Contains(s, frag) {
+					return false
+				}
+			}
+			return len(secs) > 0
+		}
+		anyOf := func(frags ...string) bool {
+			for _, s := range secs {
+				for _, f := range frags {
+					if strings.Contains(s, f) {
+						return true
+					}
+				}
+			}
+			return false
+		}
 		cls := "race:" + strings.Join(tops, "|")
+		switch {
+		case all("cuelang.org/go/cue/format.Node()") && anyOf("internal/pretty/style.setCommentRelPos()"):
+			cls = "race-format-shared-comments"
+		case len(tops) == 2 && tops[0] == "internal/core/adt.(*ValueError).Msg" && tops[1] == tops[0]:
+			cls = "race-valueerror-msg"
+		case anyOf("internal/core/adt.(*Vertex).Finalize()", "internal/core/adt.(*Vertex).unify()", "internal/core/adt.(*OpContext).unify()"):
+			cls = "race-lazy-finalize-" + cat
+		}
 		if _, ok := classes[cls]; !ok {
 			lines := strings.Split(strings.TrimSpace(blk), "\n")
 			if len(lines) > 70 {
@@ -570,10 +612,17 @@ func c19RaceStage(c *Cfg, rb *c19RaceBuild, r *Rng) {
 		return
 	}
 	fmt.Fprintf(os.Stderr, "C19: -race binary built in %v\n", time.Since(rb.t0).Round(time.Second))
-	budget := c.Pick(25, 420) // seconds of cases inside the child
-	dir := filepath.Join(c.Out, "raceout")
+	for _, run := range []struct{ cat, modes string }{{"evaluated", "01"}, {"derived", "234"}} {
+		c19RaceRun(c, rb, r, run.cat, run.modes)
+	}
+	c.Count("race.stage_ran")
+}
+
+func c19RaceRun(c *Cfg, rb *c19RaceBuild, r *Rng, cat, modes string) {
+	budget := c.Pick(12, 210) // seconds of cases inside the child
+	dir := filepath.Join(c.Out, "raceout-"+cat)
 	os.MkdirAll(dir, 0o777)
-	cmd := exec.Command(rb.bin, "C19", "-replay", fmt.Sprintf("race:%d", budget), "-seed", fmt.Sprint(r.U64()%1000000007), "-tier", c.Tier, "-out", dir)
+	cmd := exec.Command(rb.bin, "C19", "-replay", fmt.Sprintf("race:%d:%s", budget, modes), "-seed", fmt.Sprint(r.U64()%1000000007), "-tier", c.Tier, "-out", dir)
 	cmd.Env = append(os.Environ(), "GORACE=halt_on_error=0 history_size=3")
 	var eb bytes.Buffer
 	cmd.Stderr = &eb
@@ -589,8 +638,8 @@ func c19RaceStage(c *Cfg, rb *c19RaceBuild, r *Rng) {
 		return
 	}
 	stderr := eb.String()
-	os.WriteFile(filepath.Join(c.Out, "race-stderr.txt"), eb.Bytes(), 0o666)
-	classes := c19ParseRaces(stderr)
+	os.WriteFile(filepath.Join(c.Out, "race-stderr-"+cat+".txt"), eb.Bytes(), 0o666)
+	classes := c19ParseRaces(stderr, cat)
 	var names []string
 	for k := range classes {
 		names = append(names, k)
@@ -598,7 +647,7 @@ func c19RaceStage(c *Cfg, rb *c19RaceBuild, r *Rng) {
 	sort.Strings(names)
 	for _, k := range names {
 		c.Direct(false, k, "the race detector reported a data race while cue.Value methods ran concurrently on a shared value",
-			map[string]any{"report": classes[k], "replay": "VERIF_SEED / tier as in this run; the -race child generates its cases from the seed"})
+			map[string]any{"report": classes[k], "value_modes": modes, "replay": "VERIF_SEED / tier as in this run; the -race child generates its cases from the seed"})
 		c.Count("race.reports")
 	}
 	// cases the child ran
@@ -613,7 +662,6 @@ func c19RaceStage(c *Cfg, rb *c19RaceBuild, r *Rng) {
 		// exit code without a report we understand: crash of the child
 		c.Direct(false, "race-child-crash", "the -race run crashed", map[string]any{"err": fmt.Sprint(err), "stderr": c19Tail(stderr, 3000)})
 	}
-	c.Count("race.stage_ran")
 }
 
 // c19RaceChild runs inside the -race binary: concurrency phases only, for `budget` seconds.
@@ -649,7 +697,12 @@ func c19RaceChild(c *Cfg, spec string) {
 	n := 0
 	var mu sync.Mutex
 	var wg sync.WaitGroup
-	sem := make(chan struct{}, 3)
+	par := 3
+	dump := os.Getenv("C19_RACE_DUMP") != "" // one case at a time, each written out + marked on stderr
+	if dump {
+		par = 1
+	}
+	sem := make(chan struct{}, par)
 	for id := 0; time.Now().Before(deadline); id++ {
 		cs := c19GenCase(r, id, 10+r.Intn(30))
 		if modes != "" {
@@ -660,6 +713,11 @@ func c19RaceChild(c *Cfg, spec string) {
 		go func(cs *c19Case) {
 			defer wg.Done()
 			defer func() { <-sem }()
+			if dump {
+				b, _ := json.Marshal(cs)
+				os.WriteFile(filepath.Join(c.Out, fmt.Sprintf("case-%d.json", cs.ID)), b, 0o666)
+				fmt.Fprintf(os.Stderr, "C19-CASE %d START\n", cs.ID)
+			}
 			sh := c19Build(cs)
 			if c19RunCase(cs, sh, 300*time.Second) == nil {
 				fmt.Fprintf(os.Stderr, "C19-RACE-CHILD: case %d did not finish\n", cs.ID)
